@@ -60,7 +60,8 @@ def plan(tier):
     if tier == "quick":
         specs = [(3, [("dense", 1, 2)], "all", KW_FULL[2:6] + KW_FULL[7:], True),
                  (3, [("bounded", 2, 3, 3)], "some", KW_SOME[:3], True),
-                 (4, [("dense", 1, 1), ("bounded", 2, 2, 2)], "some", KW_SOME[:2], True)]
+                 (4, [("dense", 1, 1), ("bounded", 2, 2, 2)], "some", KW_SOME[:2], True),
+                 (4, [("bounded", 1, 3, 4)], "some", KW_SOME[:2], True)]
     else:
         specs = [(3, [("dense", 1, 3)], "all", KW_FULL, True),
                  (3, [("dense", 1, 2)], "some", KW_SOME[:2], False),
